@@ -26,6 +26,7 @@ ATTRS = ['par:' + r[1] for r in REL] + ['wire', 'ref', 'top']
 KIND2ATTR = {}
 for _r in REL:
     KIND2ATTR[_r[4]] = ('par:' + _r[1], 'add'); KIND2ATTR[_r[5]] = ('par:' + _r[1], 'remove')
+NS_ATTRS = ['par:' + r[1] for r in REL[:5]]      # the containment relations that are naming scopes
 VETO_KINDS = {'netlist_add_library', 'library_add_definition', 'definition_add_port', 'definition_add_cable',
               'definition_add_child', 'dictionary_set'}
 NS_WRITERS = VETO_KINDS | {'netlist_remove_library', 'library_remove_definition', 'definition_remove_port',
@@ -169,7 +170,7 @@ class IRSpec:
         if name in IR_CLASSES or name in ('InnerPinExtended', 'OuterPinExtended', 'InstanceExtended', 'ExtendedWire', 'CableExtended',
                                           'PortExtended', 'DefinitionExtended', 'NetlistExtended'):
             return ('class', name.replace('Extended', ''))
-        if name in ('global_callback', 'sys'): return ('module', name)
+        if name in ('global_callback', 'sys', 'sdn'): return ('module', name)
         if name in ('set', 'list', 'dict', 'int', 'str', 'bool'): return ('class', name)
         return None
 
@@ -488,6 +489,14 @@ class IRSpec:
             if x[0] == 'ref':
                 # a remove announcement for an element whose announced/current parent is `par` clears it
                 cur = If(h['t:' + attr][x[1]], h['l:' + attr][x[1]], self.cur_parent(h, attr, x[1]))
+                if self.check_cover and attr in NS_ATTRS:
+                    # C10 (composition with the name-table contracts, specs/ns.py lemmas): what the hook is told must describe the element
+                    # as announced so far -- an addition concerns an element without parent, a removal names its current parent, and
+                    # the element's name / identifier are not in the middle of an announced-but-unwritten change
+                    fq = st.frames[0].fi.qual if st.frames else '?'
+                    se.oblige(st, 'C10/%s/announcement/%s' % (fq, 'addition-of-a-parentless-element' if what == 'add' else 'removal-from-the-current-parent'),
+                              cur == (c.null if what == 'add' else par))
+                    se.oblige(st, 'C10/%s/announcement/element-data-committed' % fq, self.data_committed(h, x[1], (c.KEY_NAME, c.KEY_EDIF)))
                 newlast = par if what == 'add' else se.name_term(st, If(cur == par, c.null, cur))
                 h['l:' + attr] = Store(h['l:' + attr], x[1], newlast)
                 h['t:' + attr] = Store(h['t:' + attr], x[1], True)
@@ -517,6 +526,11 @@ class IRSpec:
                 h['l:top'] = Store(h['l:top'], n, v[1]); h['t:top'] = Store(h['t:top'], n, True)
         elif kind in ('dictionary_set', 'dictionary_delete', 'dictionary_pop'):
             e_ = a[1]; k_ = se.to_key(st, args[1])
+            if self.check_cover:
+                fq = st.frames[0].fi.qual if st.frames else '?'
+                se.oblige(st, 'C10/%s/announcement/element-parent-committed' % fq,
+                          And([Implies(And(c.isa(e_, r[2]), h['t:par:' + r[1]][e_]), h['l:par:' + r[1]][e_] == h[r[3]][e_]) for r in REL[:5]]))
+                se.oblige(st, 'C10/%s/announcement/element-data-committed' % fq, self.data_committed(h, e_, (k_,)))
             h['t:data'] = Store(h['t:data'], e_, Store(h['t:data'][e_], k_, True))
             if kind == 'dictionary_set':
                 h['lh:data'] = Store(h['lh:data'], e_, Store(h['lh:data'][e_], k_, True))
@@ -571,6 +585,10 @@ class IRSpec:
                 h['lh:data'] = Store(h['lh:data'], ch[1], Store(h['lh:data'][ch[1]], c.KEY_NS, nh))
                 h['lv:data'] = Store(h['lv:data'], ch[1], Store(h['lv:data'][ch[1]], c.KEY_NS, nv))
         cont(st, se.none())
+
+    def data_committed(self, h, x, keys):
+        return And([Implies(h['t:data'][x][k], And(h['dhas'][x][k] == h['lh:data'][x][k], Implies(h['lh:data'][x][k], h['dval'][x][k] == h['lv:data'][x][k])))
+                    for k in keys])
 
     def cur_parent(self, h, attr, x):
         for r in REL:
